@@ -294,7 +294,8 @@ Fixpoint marshal_ext_list (l : list ext) : string :=
   | e :: r => fst e ++ " " ++ snd e ++ " " ++ marshal_ext_list r
   end.
 
-(* the condition under which Marshal writes the related address *)
+(* the condition under which Marshal writes the related address ([r != nil] is the match in
+   [marshal]); [fix_marshal_rport0]: the proposed repair that drops the port test *)
 Definition emits_raddr (r : string * Z) : bool :=
   if fix_marshal_rport0 then negb (String.eqb (fst r) "")
   else negb (String.eqb (fst r) "") && negb (snd r =? 0).
@@ -316,7 +317,8 @@ Definition marshal (c : cand) : string :=
 
 (* ---------------------------------------------------------------- UnmarshalCandidate *)
 
-(* tryReadRelativeAddrs: None = error; otherwise (raddr, rport, rest) *)
+(* tryReadRelativeAddrs: None = error; otherwise (raddr, rport, rest).
+   [fix_empty_raddr] (Model/CandVariant.v): the proposed repair that rejects an empty raddr value. *)
 Definition try_read_rel (s : string) : option (string * Z * string) :=
   let (key, r) := read_string_token s in
   if negb (String.eqb key "raddr") then Some ("", 0, s) else
@@ -333,7 +335,8 @@ Definition try_read_rel (s : string) : option (string * Z * string) :=
   end.
 
 (* the loop of unmarshalCandidateExtensions; the option is the value of the LAST tcptype key.
-   [fuel] bounds the iterations (each consumes at least one byte). *)
+   [fuel] bounds the iterations (each consumes at least one byte).
+   [fix_ext_empty_key] (Model/CandVariant.v): the proposed repair that rejects an empty key. *)
 Fixpoint parse_exts (fuel : nat) (s : string) : result (list ext * option string) :=
   match fuel with
   | O => Ok ([], None)
@@ -455,7 +458,10 @@ Definition equal (a b : cand) : bool :=
 Fixpoint count_ext (k : ext) (l : list ext) : nat :=
   match l with [] => O | x :: r => (if ext_eqb k x then 1 else 0) + count_ext k r end.
 
-(* extensionsEqual(mine, other): equal lengths and, for more than one element, equal frequency maps *)
+(* extensionsEqual(mine, other): equal lengths and, for more than one element, equal frequency
+   maps (the loop over freq1 is a conjunction, so Go's random map order cannot matter).  In the
+   pinned code [mine] is c.extensions (without tcptype) while [other] is other.Extensions()
+   (with it); [fix_deep_equal] in [deep_equal] below selects c.Extensions() for [mine]. *)
 Definition extensions_equal (mine other : list ext) : bool :=
   if negb (Nat.eqb (List.length mine) (List.length other)) then false else
   match mine with
